@@ -618,7 +618,7 @@ def lambda_contracts():
 
     def c(fname, **kw):
         kw.setdefault('serves', ('C11',))
-        kw.setdefault('native', False)
+        kw.setdefault('native', None)
         x = Contract(Q + fname, **kw)
         cs.append(x)
         return x
@@ -644,7 +644,8 @@ def lambda_contracts():
               ensures=ens,
               raises={'MemoryQuotaExceededException': 'True'},
               loops=[dict(anchor='while predicate(initial)',
-                          invariant=inv)])
+                          invariant=inv)],
+              native=False)     # (may not terminate on a native lambda)
     # searching / testing with a predicate: one application per element
     # pulled from the source, none ahead of the pull, none repeated
     c('index_where', name='queries.index_where/calls',
@@ -897,7 +898,7 @@ def functional_contracts():
 
     def c(fname, **kw):
         kw.setdefault('serves', ('C13',))
-        kw.setdefault('native', False)
+        kw.setdefault('native', None)
         x = Contract(Q + fname, **kw)
         cs.append(x)
         return x
@@ -961,7 +962,7 @@ def dict_builder_contracts():
 
     def c(fname, **kw):
         kw.setdefault('serves', ('C13',))
-        kw.setdefault('native', False)
+        kw.setdefault('native', None)
         x = Contract(C + fname, **kw)
         cs.append(x)
         return x
